@@ -163,9 +163,9 @@ PROPS = {
                  "devices, device no longer resolvable; every other peer's snapshot is identical and a read by it is answered; the removed "
                  "connection's writer stays silent until after the approval time-out and further data changes. Non-trivial: >=2 peers hold state on the "
                  "same local feature at a removal. Distinct by operation sequence."
-                 "Directed scenario (shared with C06): removal of a peer's entity / connection while the event bus is kept busy by another peer's announcement (stalled SHIP writer) and a third peer's bind / subscribe / delete call arrives in between; afterwards exactly the removed entity's entries are gone."),
+                 " Directed scenario (shared with C06): removal of a peer's entity / connection while the event bus is kept busy by another peer's announcement (stalled SHIP writer) and a third peer's bind / subscribe / delete call arrives in between; afterwards exactly the removed entity's entries are gone."),
         "assumptions": ["real time is used only to let the 30 ms approval time-out expire (sleep 55 ms); no timing is asserted",
-                        "no message is injected on a removed connection"],
+                        "on a removed connection only messages that ask for no answer are injected (late discovery reply, notification, result)"],
         "runs": [
             {"name": "teardown", "run": "TestTeardown", "kind": "rapid", "checks": {Q: 4000, T: 240000}, "shards": {Q: 8, T: 16}, "steps": {Q: 20, T: 40}},
             {"name": "stress", "run": "TestTeardownStress", "kind": "plain", "shards": {Q: 4, T: 16}, "env": {"VERIF_ROUNDS": {Q: 150, T: 1500}}},
@@ -335,7 +335,7 @@ PROPS = {
                  "FeatureByAddress / Operations of BOTH peers; the event delta must be exactly one add per appeared and one remove per disappeared entity "
                  "for the right SKI; after a removal exactly the registry entries and bookkeeping inside the removed entity of that device are gone. "
                  "Non-trivial: a notification changed the entity set after the initial reply. Distinct by sequence of (peer, kind, entity-set delta)."
-                 "Directed scenario (shared with C10): removal of a peer's entity / connection while the event bus is kept busy by another peer's announcement (stalled SHIP writer) and a third peer's bind / subscribe / delete call arrives in between; afterwards exactly the removed entity's entries are gone."),
+                 " Directed scenario (shared with C10): removal of a peer's entity / connection while the event bus is kept busy by another peer's announcement (stalled SHIP writer) and a third peer's bind / subscribe / delete call arrives in between; afterwards exactly the removed entity's entries are gone."),
         "assumptions": ["feature-set changes of existing entities, later replies omitting known entities and full notifications without entity [0] are not generated (DESIGN §4 C06 NA)",
                         "whether subscribe / bind calls are granted is not asserted here (C08/C09)"],
         "runs": [
